@@ -135,12 +135,13 @@ plan("C07", [], tests=["TestC07Evidence"],
           "with another key, amnesia shape, below trust level, replay after tombstone) => tx fails, empty tx-level diff of the provider store, all validators identical; "
           "distinct = evidence kind x mutation / key relation")
 
-plan("C16", [("rewards", 12, 90)],
-     minobs={"fee-splits-checked": 200, "reward-transfers-sent": 100, "reward-transfers-received": 80, "payouts-judged": 300, "payouts-with-ineligible-members": 5,
+plan("C16", [("rewards", 12, 90)], tests=["TestC16RewardFaults"],
+     minobs={"conservation-checks-under-injected-payout-faults": 40, "fee-splits-checked": 200, "reward-transfers-sent": 100, "reward-transfers-received": 80, "payouts-judged": 300, "payouts-with-ineligible-members": 5,
              "commissions-checked": 100, "credits-in-unregistered-denoms-kept": 20, "cross-chain-conservation-checks": 6},
      rule="consumer: balances of fee collector / redistribution / to-provider accounts and the transfer escrow before and after every EndBlock against the split rule "
           "(fraction rounded down), transmission height rule, allowed denoms, all-or-nothing transmission; provider: pool balance and per-consumer credits around every "
           "received transfer; reward allocation of every BeginBlock against a model of the statement (eligibility from an independent membership history, proportional "
           "shares, community tax, per-consumer commission) using the boundary calls into x/distribution, outstanding rewards and commission deltas; standing "
           "'credits <= pool'; end-of-world cross-chain conservation sent = credited + refunded + in flight; fees 0..1e18 in three denoms (one unregistered), two "
-          "consumers, joins/leaves/commission changes between crediting and payout; distinct = (fraction, magnitude, allowed?) and (eligible bucket, ineligible?, magnitude, custom rate?)")
+          "consumers, joins/leaves/commission changes between crediting and payout; plus the rewards fault scenario of C19 (several consumers credited in two shared denoms, an error "
+          "injected at every boundary call of the payout block in turn): rewards pool minus all credits and distribution balance minus what it owes must not change; distinct = (fraction, magnitude, allowed?) and (eligible bucket, ineligible?, magnitude, custom rate?)")
